@@ -42,6 +42,22 @@ def _HELPERS(t, callee):
     return len(callee["blocks"]) <= 150
 
 
+def _HELPERS_ALL(t, callee):
+    """also the selector's async helpers (`async fn fetch_candidates(..)`): awaited calls are inlined too"""
+    if callee["crate"] != "tx3_resolver" or callee.get("impl_trait") or callee.get("trait_default"):
+        return False
+    return len(callee["blocks"]) <= 200
+
+
+def _RESOLVE_HELPERS(t, callee):
+    """helpers of inputs::resolve (e.g. a per-query `resolve_query`), not the selector's own methods"""
+    if callee["crate"] != "tx3_resolver" or callee.get("impl_trait") or callee.get("trait_default"):
+        return False
+    if callee["path"].startswith(SELP) or "::narrow::" in callee["path"]:
+        return False
+    return len(callee["blocks"]) <= 200
+
+
 def bodies_of(F, path):
     """the body to reason about and its closures (async: the coroutine body and the closures inside it)"""
     b = F.body(path)
@@ -137,6 +153,10 @@ def accesses(F, f, fields, depth=0, owner_capt=None):
             g = F.fns.get(rv["closure"])
             if g is None:
                 continue
+            if rv["closure"] in F.built:
+                # the body of an async fn: its pre-transform form, with the crate's helper functions inlined (a helper that is
+                # handed `&mut self.<field>` then writes the field in place)
+                g = mir.inline_calls(F, F.built[rv["closure"]], want=_HELPERS_ALL, depth=2)
             capt = {}
             whole = False
             for i, o in enumerate(rv["ops"]):
@@ -156,7 +176,7 @@ def s_ignore(F, res):
     b, allb = bodies_of(F, SELP + "select_input")
     # helper functions of the resolver crate are inlined (two levels): a candidate filter extracted into
     # `fn candidate_refs(space, used)` is analysed as if it were written in place
-    b = mir.inline_calls(F, b, want=_HELPERS, depth=2)
+    b = mir.inline_calls(F, b, want=_HELPERS_ALL, depth=2)
     cfg = mir.CFG(b)
     du = mir.DefUse(b)
     acc = accesses(F, b, fields)
@@ -269,6 +289,9 @@ def s_ignore(F, res):
             continue   # use the pre-transform body of coroutines
         if f.get("owner"):
             continue   # closures are reached through their owner
+        # helper functions that receive the remembering set as a parameter (`pick_and_remember(.., used: &mut HashSet<..>)`) are
+        # seen through their callers, with the helper inlined
+        f = mir.inline_calls(F, f, want=_HELPERS_ALL, depth=2)
         for bi, si, s in mir.stmts(f):
             lhs = s["lhs"]
             for p in lhs["p"]:
@@ -322,7 +345,7 @@ def s_ignore(F, res):
     else:
         res.add([finding("S-IGNORE", key2, where(b), why or "select_input never records its selection")])
     # (d) one selector per resolution
-    r = F.body("tx3_resolver::inputs::resolve")
+    r = mir.inline_calls(F, F.body("tx3_resolver::inputs::resolve"), want=_RESOLVE_HELPERS, depth=2)
     cfg_r = mir.CFG(r)
     news = [bi for bi, t in mir.calls(r) if (t.get("callee") or "").endswith("InputSelector::<'a, S>::new")]
     loops = cfg_r.loops()
